@@ -1,6 +1,9 @@
 /*
  * Harness for crypto/crypto_entropy.c (C11).  White-box: the file is included so that the static
  * `drbg` / `instantiated` can be printed and reset.  Built WITHOUT CPUSUPPORT_X86_RDRAND.
+ * With -DHC_BLACKBOX (notes/blackbox.md) crypto_entropy.c is compiled as a separate unit and only
+ * crypto_entropy_read() is used: no private names, the L2 part is `q=` (the harness's own queue) only, the
+ * generator state cannot be reset, so every case gets its own process (bb_fresh).
  *
  * Component `drbg` (default build): entropy_read (util/entropy.c, not compiled) is replaced by
  * scripted answers:  ent <hex>|FAIL ; read <n>.
@@ -15,7 +18,13 @@
 #ifdef DRBG_OS
 #include "hfakeos.h"
 #endif
+#ifdef HC_BLACKBOX
+#include "cpusupport.h"
+#include "crypto_entropy.h"
+#include "entropy.h"
+#else
 #include "crypto_entropy.c"
+#endif
 
 #ifdef CPUSUPPORT_X86_RDRAND
 #error "C11 excludes RDRAND mixing: build this harness without CPUSUPPORT_X86_RDRAND"
@@ -124,8 +133,10 @@ main(void)
 	while (hc_next()) {
 		if (hc_is("case", 1)) {
 			/* fresh process state: zero-initialised statics, empty script */
+#ifndef HC_BLACKBOX
 			memset(&drbg, 0, sizeof(drbg));
 			instantiated = 0;
+#endif
 			q_reset();
 			printf("case %s", hc_tok[1]);
 		} else if (hc_is("ent", 1)) {
@@ -147,12 +158,16 @@ main(void)
 				put_summary(buf, n);
 			} else
 				printf("fail | fail");
+#ifdef HC_BLACKBOX
+			printf(" q=%zu", q_n - q_pos);
+#else
 			printf(" K=");
 			hc_puthex(drbg.Key, 32);
 			printf(" V=");
 			hc_puthex(drbg.V, 32);
 			printf(" ctr=%lu inst=%d q=%zu", (unsigned long)drbg.reseed_counter,
 			    instantiated, q_n - q_pos);
+#endif
 			free(buf);
 		} else {
 			printf("bad-op");
